@@ -60,7 +60,7 @@ var (
 	c30Once sync.Once
 	c30pki  *c30PKIT
 	c30Err  error
-	// c30RootsDir holds the process-wide fake system root store (removed by TestSim when the process ends)
+	// c30RootsDir holds the process-wide fake system root store (removed by TestMain when the process ends)
 	c30RootsDir string
 )
 
